@@ -129,6 +129,10 @@ def opt_result_programs():
 KINDS = ["place", "let", "let_ty", "wild"]
 
 
+def js(t):
+    return '"' + t.replace("\\", "\\\\").replace('"', '\\"') + '"'
+
+
 def rebind_programs(tier="quick"):
     """try_rebind! / rebind_if_ok! for every arity 1..=6 and assignment of position kinds"""
     out = []
@@ -181,6 +185,31 @@ def rebind_programs(tier="quick"):
             f"out.push((\"rebind_if_ok! {name} on Err\".to_string(), cu(|| format!(\"{{:?}}\", k(Err(3)))), format!(\"{{:?}}\", vec![999u32])));",
         ]
         out.append((f"rebind_if_ok! {name}", body_if))
+    # unparenthesised single targets (plain value and whole-tuple payloads) and a type annotation on the whole pattern
+    # (name, payload type, value, declarations, pattern, reads, expected, also valid for try_rebind!: it takes one token tree, no annotation)
+    single = [
+        ("x = r (u32 payload)", "u32", "10", "let mut x = 0u32;", "x", "vec![x]", "vec![10]", True),
+        ("x: u32 = r (u32 payload)", "u32", "10", "let mut x = 0u32;", "x: u32", "vec![x]", "vec![10]", False),
+        ("_ = r (u32 payload)", "u32", "10", "", "_", "vec![0u32]", "vec![0]", True),
+        ("_: u32 = r (u32 payload)", "u32", "10", "", "_: u32", "vec![0u32]", "vec![0]", False),
+        ("t = r (whole tuple payload into one place)", "(u32, u32)", "(10, 20)", "let mut t = (0u32, 0u32);", "t", "vec![t.0, t.1]", "vec![10, 20]", True),
+        ("t: (u32, u32) = r (whole tuple payload, typed)", "(u32, u32)", "(10, 20)", "let mut t = (0u32, 0u32);", "t: (u32, u32)", "vec![t.0, t.1]", "vec![10, 20]", False),
+        ("(s.f) = r (field place)", "u32", "10", "struct S { f: u32 } let mut s = S { f: 0 };", "(s.f)", "vec![s.f]", "vec![10]", True),
+        ("(a, b): (u32, u32) = r (annotation on the whole pattern)", "(u32, u32)", "(10, 20)", "let mut a = 0u32; let mut b = 0u32;", "(a, b): (u32, u32)", "vec![a, b]", "vec![10, 20]", False),
+        ("(a, b, c): (u32, u32, u32) = r (annotation on the whole pattern)", "(u32, u32, u32)", "(10, 20, 30)", "let mut a = 0u32; let mut b = 0u32; let mut c = 0u32;", "(a, b, c): (u32, u32, u32)", "vec![a, b, c]", "vec![10, 20, 30]", False),
+    ]
+    for name, ty, val, decls, pat, reads, exp_ok, for_try in single:
+        if for_try:
+          out.append((f"try_rebind! {name}", [
+              f"fn k(r: Result<{ty}, u8>) -> Result<Vec<u32>, u8> {{ {decls} konst::try_rebind!{{{pat} = r}} Ok({reads}) }}",
+              f"out.push(({js(f'try_rebind! {name} on Ok')}.to_string(), cu(|| format!(\"{{:?}}\", k(Ok({val})))), format!(\"{{:?}}\", Ok::<Vec<u32>, u8>({exp_ok}))));",
+              f"out.push(({js(f'try_rebind! {name} on Err')}.to_string(), cu(|| format!(\"{{:?}}\", k(Err(3)))), format!(\"{{:?}}\", Err::<Vec<u32>, u8>(3))));",
+          ]))
+        out.append((f"rebind_if_ok! {name}", [
+            f"fn k(r: Result<{ty}, u8>) -> Vec<u32> {{ {decls} let mut res = vec![999]; konst::rebind_if_ok!{{{pat} = r => res = {reads}; }} res }}",
+            f"out.push(({js(f'rebind_if_ok! {name} on Ok')}.to_string(), cu(|| format!(\"{{:?}}\", k(Ok({val})))), format!(\"{{:?}}\", {exp_ok})));",
+            f"out.push(({js(f'rebind_if_ok! {name} on Err')}.to_string(), cu(|| format!(\"{{:?}}\", k(Err(3)))), format!(\"{{:?}}\", vec![999u32])));",
+        ]))
     # in-order assignment: later places that depend on / alias earlier ones
     out.append(("try_rebind! order (i, arr[i])", [
         "fn k(r: Result<(usize, u32), u8>) -> Result<(usize, [u32; 3]), u8> { let mut i = 0usize; let mut arr = [0u32; 3]; konst::try_rebind!{(i, arr[i]) = r} Ok((i, arr)) }",
